@@ -12,4 +12,4 @@ Extraction "gram_model.ml"
   sshift ushift open fvl occurs hole_free
   is_value step evaluate stuck_reason run_env obs_of_value obs_of_term
   tokenize asc partition_ok layout_ok kind_of all_kinds in_kinds E_spec S_spec is_lbv
-  parse_top grammar all_nts skeleton memo_flags reassociate scope_spec syntax_tree print has_unused_implicit_pi listing overline spec_linenos reparse_in_scope whnf convb infer nf.
+  parse_top grammar all_nts skeleton memo_flags reassociate scope_spec syntax_tree print has_unused_implicit_pi listing overline spec_linenos reparse_in_scope whnf convb infer nf group_type bind enter.
